@@ -41,19 +41,25 @@ for _n, _d, _m in [(2, None, 1), (2, 1, 2)]:
 contract('C17/constraints.and_/n=3,dim=1,maxiter=2', ['C17'], K + 'and_._constraint')(lambda h: _and(h, 3, 1, 2))
 contract('C17/constraints.and_/called-again,n=3,dim=1,maxiter=2', ['C17'], K + 'and_._constraint', native=False)(
     lambda h: _and(h, 3, 1, 2, earlier_call=True) if h.is_sym() else h.unsupported('symbolic only'))
+contract('C17/constraints.or_/called-again,n=2,dim=1,maxiter=2', ['C17'], K + 'or_._constraint', native=False)(
+    lambda h: _or(h, 2, 1, 2, earlier_call=True) if h.is_sym() else h.unsupported('symbolic only'))
 contract('C17/constraints.and_/called-again,n=2,dim=1,maxiter=2', ['C17', 'C03'], K + 'and_._constraint', native=False)(
     lambda h: _and(h, 2, 1, 2, earlier_call=True) if h.is_sym() else h.unsupported('symbolic only'))
 
 
-def _or(h, n, dim, maxiter, inplace=False):
+def _or(h, n, dim, maxiter, inplace=False, earlier_call=False):
     cs = [h.fn('c%d' % i, ret='same', inplace=inplace) for i in range(n)]
     onexit = h.fn('ONEXIT', ret='same', log='exit')
     onfail = h.fn('ONFAIL', ret='same', log='fail')
     cf = h.call(h.get(K + 'or_'), *cs, maxiter=maxiter, onexit=onexit, onfail=onfail)
+    n_ex = n_fl = 0
+    if earlier_call:
+        h.call(cf, h.vec('earlier_x', dim or 1))
+        n_ex, n_fl = len(h.log('exit')), len(h.log('fail'))
     x = _vec(h, dim)
     x0 = h.snapshot(x)
     r = h.call(cf, x)
-    ex, fl = h.log('exit'), h.log('fail')
+    ex, fl = h.log('exit')[n_ex:], h.log('fail')[n_fl:]
     h.check('exactly-one-of-success-or-failure-path', 'len(ex) + len(fl) == 1', ex=ex, fl=fl)
     h.check('input-not-modified', 'seq_eq(x, x0)', x=x, x0=x0)
     if len(ex) == 1:
